@@ -338,9 +338,20 @@ def crash_key(fam, f):
 
 def drive(ctx, exe, scripts, tag):
     """Runs the scripts (record mode), reports crashes/hangs, validates the event streams with TLC."""
+    import glob, shutil
     texts = [s.text(i + 1) for i, s in enumerate(scripts)]
     t0 = time.time()
-    fails, recs, ns, nt = run_scripts(exe, [], texts, ctx.rundir, jobs=4, tag=tag, env={"VH_WATCHDOG": "120"})
+    # small batches: a crash restarts the harness behind the dead script and the restarted process re-reads its batch file
+    fails, recs = [], []
+    SUB = 4000
+    for b0 in range(0, len(texts), SUB):
+        f1, r1, ns, nt = run_scripts(exe, [], texts[b0:b0 + SUB], ctx.rundir, jobs=4, tag="%s-%d" % (tag, b0), env={"VH_WATCHDOG": "120"})
+        fails += f1
+        recs += r1
+        for d in glob.glob(os.path.join(ctx.rundir, "conf-*")):       # private directories of harness processes that died
+            shutil.rmtree(d, ignore_errors=True)
+        for d in glob.glob(os.path.join(ctx.rundir, "stderr-%s-%d-*" % (tag, b0))):
+            os.unlink(d)
     dead = {}
     for f in fails:
         s = scripts[f.sid - 1]
@@ -488,8 +499,8 @@ def run(ctx):
             s.meta.insert(len(s.meta) - 1, {"op": "expand", "t": flags([body[:20000]])})
         soup.append(s)
     ctx.cov["random_inputs"] = {"byte_strings": nsoup, "with_spawn_trigger": ntrig, "without": nsoup - ntrig}
-    for c0 in range(0, nsoup, 20000):
-        drive(ctx, exe, soup[c0:c0 + 20000], "random-bytes-%d" % c0)
+    for c0 in range(0, nsoup, 40000):
+        drive(ctx, exe, soup[c0:c0 + 40000], "random-bytes-%d" % c0)
     log("random bytes done %.0fs" % (time.time() - ctx.t0))
     drive(ctx, exe, find_cases(rnd, 300 if ctx.tier == "quick" else 6000), "find-file")
     tev = drive(ctx, exe, temp_cases(rnd, 1000 if ctx.tier == "quick" else 10000, ctx.rundir), "temp-file")
